@@ -38,6 +38,8 @@ def main():
             cell += " (not by " + ", ".join(miss) + ")"
         if not det:
             cell = "(not run yet)"
+        if m.get("undetected_reason") and not hits:
+            cell = "not detected — " + m["undetected_reason"]
         out.append("| %s | %s | %s | %s | `%s` |" % (n, short(m.get("breaks"), 170).replace("|", "/"), short(m.get("needs_to_manifest"), 150).replace("|", "/"), cell, short(sig, 110).replace("|", "/")))
     out.append("")
     rp = os.path.join(VERIF, "selftest", "results-mutants.json")
